@@ -25,12 +25,14 @@ READS = [
     "furn.RecipeHash", "st3[2]", "st3[7]", "ArcFurnaces.Export.Quantity.Sum", "heater.On",
     'WallHeaters["H 1"].slot0.Occupied.Maximum', "refdev.Setting", "stref[1]", "lamp.Setting",
     "heater.DataDisk.Occupied", "furn.Reagents", "allbat.Charge.Minimum",
+    'GasSensors["Tank: #2"].Pressure.Minimum',  # ':' and '#' in a device name are text, not label / comment
 ]
 OWN_STACK_READS = ["stack[3]", "stack[4]", "stack[17]"]
 WRITES = [
     "db.Setting", "d0.On", "d1.Setting", "Batteries.Lock", 'GrowLights["A"].On', "furn.Activate",
     "furn.Export.Quantity", "st3[1]", "db.Mode", "heater.On", "WallHeaters.On", "ArcFurnaces.Import.Occupied",
     "d2.Setting", "refdev.Mode", "stref[5]", "furn.slot0.Damage", "lamp.On", "allbat.On", "furn.Lock",
+    'GrowLights["end: #1"].Lock',
 ]
 OWN_STACK_WRITES = ["stack[3]", "stack[4]", "stack[17]"]
 
